@@ -23,8 +23,12 @@ import (
 //   C04-call     Go callee signature x argument list (len 0..3 [+4]), user fn arity  exhaustive
 //   C04-builtin  every key of plush.Helpers x argument kinds to arity 3              exhaustive
 //   C04-rand     random well-formed programs with leaves from the pool               random
+//   C04-shapes   value shapes inside a kind (multi-byte / long / invalid strings,   exhaustive
+//                boundary ints, NaN, every sequence length, NaN-keyed maps) x helpers,
+//                option hashes, index, operators, iteration, calls (oracle_c04_shapes.go)
 //
-// A case is the template text (Go-quoted); the environment is always c04Env().
+// A case is the template text (Go-quoted); the environment is c04EnvFor(template text): c04Env(), plus
+// the shape variables sh* iff the text mentions one.
 
 const c04Timeout = 3 * time.Second
 
@@ -74,7 +78,7 @@ func (r *c04Runner) check(tmpl string, tags ...string) {
 			return "", err
 		}
 		parsed = true
-		return t.Exec(plush.NewContextWith(c04Env()))
+		return t.Exec(plush.NewContextWith(c04EnvFor(tmpl)))
 	})
 	caseText := strconv.Quote(tmpl)
 	kind := o.Kind()
@@ -452,7 +456,7 @@ func init() {
 		}
 		note := "A panic is attributed to plush because no helper, method or iterator of the C04 environment can panic (nil receivers/maps/funcs handled). Not generated on purpose: self-referential data (xs[0] = xs then printing xs) and recursive user functions / partials — they exhaust the Go stack, which kills the process and cannot be observed in-process; loops over huge ranges (C19's subject)."
 		// the streams are independent (own report, own random state): run them side by side
-		streams := []func(Config) *Report{c04Infix, c04Index, c04Member, c04Iter, c04Call, c04Builtin, c04Rand}
+		streams := []func(Config) *Report{c04Infix, c04Index, c04Member, c04Iter, c04Call, c04Builtin, c04Rand, c04Shapes}
 		reps := make([]*Report, len(streams))
 		var wg sync.WaitGroup
 		for i := range streams {
